@@ -36,7 +36,7 @@ func zzC09(depth int) {
 		ss.URRIDs[1] = info
 	}
 	c0 := nondetU32("txseq")
-	zzAssume(c0 <= 0xffffff) // the counter starts at 0 and the wire field has 24 bits
+	// the counter is 32 bits wide and only ever incremented: any value, incl. both sides of 2^24 and of 2^32
 	l.s.txSeq = c0
 	nreq := 1 + nondetChoice("nreq", 2)
 	var out [2]zzOut
